@@ -83,7 +83,20 @@ def gen(rng, flavour):
         horizon = (acts[-1]['t'] if acts else 0) + 2 * T
         shutdown = rng.choice([0, T / 4, T / 2, T - m, T, T + m, T + cfg['fdur'] / 2, horizon / 2, horizon])
         foreign = []         # a loop shut down under foreign waiters strands them by design
-    return {'cfg': cfg, 'acts': acts, 'foreign': foreign, 'shutdown': shutdown}
+    migrate = None
+    if flavour != 'c08' and shutdown is None and not foreign and rng.random() < 0.12:
+        # the loop changes thread: created (and perhaps used) in one thread, then run by loop_in_thread's helper
+        # while the first thread keeps submitting - the set-up the documentation of loop_in_thread suggests
+        ph2 = []
+        t2 = 0.0
+        for j in range(rng.randint(1, 3)):
+            t2 += rng.choice([0, 8 * U, T - m, T + m, 2 * T])
+            ph2.append({'t': t2, 'k': rng.choice(['call', 'call', 'maplist', 'mapiter', 'await']), 'ids': [f'M{j}'],
+                        'd': 0, 'fail': None, 'wfa': rng.choice([None, True, False])})
+        migrate = {'phase1': rng.random() < 0.6, 'phase2': ph2}
+    if migrate is not None and rng.random() < 0.4:
+        cfg['debug'] = True
+    return {'cfg': cfg, 'acts': acts, 'foreign': foreign, 'shutdown': shutdown, 'migrate': migrate}
 
 
 class BufferHarness:
@@ -271,6 +284,60 @@ class BufferHarness:
                     loop.close()
                 return body
 
+            def migrating_thread():
+                mg = prog['migrate']
+                loop = aio.new_event_loop()
+                aio.set_event_loop(loop)
+                if cfg['debug']:
+                    loop.set_debug(True)
+                    loop.slow_callback_duration = 1e9
+                buf = A.buffer_until_timeout(func, timeout=T)
+                box['buf'] = buf
+                box['loop'] = loop
+                if mg['phase1']:
+                    async def act(i, a):
+                        if a['t']:
+                            await aio.sleep(a['t'])
+                        if a['k'] in ('wait', 'waitnc'):
+                            emit('wcall', f'L{i}', a['k'], 'L')
+                            await buf.wait(cancel=(a['k'] == 'wait'))
+                            emit('wret', f'L{i}', 'L')
+                        else:
+                            submit(buf, 'L', f'L{i}', a, 'L')
+
+                    async def phase1():
+                        await aio.gather(*(act(i, a) for i, a in enumerate(prog['acts'])))
+                        emit('wcall', 'p1', 'wait', 'L')
+                        await buf.wait()
+                        emit('wret', 'p1', 'L')
+                    loop.run_until_complete(phase1())
+                stop = A.loop_in_thread(loop)
+                emit('migrated')
+                own = aio.new_event_loop()
+                try:
+                    for j, a in enumerate(mg['phase2']):
+                        if a['t']:
+                            s.sleep(a['t'])
+                        try:
+                            submit(buf, 'M', f'M.{j}', a, 'M')
+                        except RuntimeError as e:
+                            emit('sanitizer', 'M', repr(e)[:200])
+                            break
+                        if a['wfa'] is not None:
+                            emit('wcall', f'M.{j}', 'wait' if a['wfa'] else 'waitnc', 'M')
+                            own.run_until_complete(buf.wait_from_anywhere(cancel=a['wfa']))
+                            emit('wret', f'M.{j}', 'M')
+                    emit('wcall', 'final', 'wait', 'M')
+                    own.run_until_complete(buf.wait_from_anywhere())
+                    emit('wret', 'final', 'M')
+                    emit('quiesced')
+                finally:
+                    own.close()
+                stop()
+
+            if prog.get('migrate'):
+                s.spawn(migrating_thread, 'L')
+                return
             s.spawn(loop_thread, 'L')
             for fi, fa in enumerate(prog['foreign']):
                 s.spawn(foreign_thread(fi, fa), f'F{fi}')
@@ -592,6 +659,8 @@ class BufferCheck(Check):
         st['loop_exception_handler_events'] += sum(1 for e in r.log if e[0] == 'loop_exc')
         if prog['cfg']['debug']:
             st['debug_mode_executions'] += 1
+        if prog.get('migrate'):
+            st['loop_migrated_to_another_thread'] += 1
         if self.pid == 'C03':
             judge_c03(v, res, r.verdict)
             if r.verdict in ('deadlock', 'stepbound', 'timebound'):
